@@ -885,7 +885,7 @@ Engine MakeEngine()
     e.describe = Describe;
     e.chunk = 1;
     e.quick_runs = 450;
-    e.thorough_runs = 10000;
+    e.thorough_runs = 14000;
     e.quick_budget_s = 50;
     e.thorough_budget_s = 900;
     e.run_timeout_s = 300;
